@@ -3,5 +3,6 @@ GO124=/root/go/pkg/mod/golang.org/toolchain@v0.0.1-go1.24.0.linux-amd64/bin/go
 if [ ! -x "$GO124" ]; then echo "goenv: go1.24.0 toolchain not found at $GO124" >&2; exit 2; fi
 export GOTOOLCHAIN=local GOPROXY=off GOSUMDB=off GOFLAGS=-mod=mod GONOSUMDB='*' GONOSUMCHECK=1
 export VERIF_REPO="${VERIF_REPO:-/repo}"
-export VERIF_DIR="${VERIF_DIR:-/verif}"
+# VERIF_DIR: where evidence/, replays/, known_findings.json and .work live (default: the directory of this file)
+export VERIF_DIR="${VERIF_DIR:-$(cd "$(dirname "${BASH_SOURCE[0]}")" && pwd)}"
 go124() { "$GO124" "$@"; }
